@@ -806,6 +806,97 @@ META = {
         "level_note": "Trusts the reference transcription of AreTypesCompatible / IsVariableUsageAllowed / IsValidImplementationFieldType (unit-tested on the spec's examples) and the identification of the diagnostic by unstable_error_name().",
         "design_ref": "DESIGN.md section 6, C29",
     },
+    "C26": {
+        "budget": {"quick": 40, "thorough": 420},
+        "rule": "cases: (schema from gen_schema without subscription root, operation from gen_executable with <= 40 field selections, sometimes __schema/__type injected at the query root; "
+                "both accepted by apollo's own validation) x (variable values passed through coerce_variable_values; variables driving @skip/@include always boolean, other nullable ones sometimes omitted or explicitly null) "
+                "x resolver world (object type, field) -> outcome. Operations touching <= 5 distinct (type, field) cells get ALL 6^n worlds over a 6-outcome palette per cell, larger ones random worlds. "
+                "Each case: apollo execute_sync vs RefExecutor (data with key order; error-path multiset inside the band [cancel every sibling the spec allows, cancel none]); direct checks on apollo's response "
+                "(null at non-null position, error path designates a null position, data:null iff an error sits under an all-non-null chain); mutation roots serial in document order from the resolver call log. "
+                "distinct_nontrivial = distinct (schema, operation, variables, world) tuples on which apollo made at least one resolver call and the full comparison ran",
+        "assumptions": COMMON_ASSUMPTIONS + [
+            "precondition filter is apollo's own validation (Schema::parse_and_validate, ExecutableDocument::parse_and_validate) and coerce_variable_values; rejected inputs are counted, not judged",
+            "reference follows apollo's documented choices: strict result coercion of built-in scalars, custom scalars pass any JSON, a list-iterator Err fails the list at the item's path (unit test test_error_path), __typename answered by the executor, __schema/__type are field errors with introspection disabled",
+            "spec section 6.4.4 lets an executor cancel siblings after a non-null error propagates: error paths are judged against the band between cancelling everything allowed and cancelling nothing; error messages and locations are not compared",
+            "out of band by construction (spec or apollo documentation does not decide): a null value for the `if` variable of @skip/@include; result values the spec says a service MAY coerce (integer for Float, number for String, numeric string for Int); subscription operations",
+        ],
+        "floors": {"any": {
+            "outcome_kind_resolved": ["correct", "null", "err", "wrong_kind", "int_overflow", "enum_unknown", "object_right", "object_unknown", "object_nonmember",
+                                      "leaf_where_object", "object_where_leaf", "list_unexpected", "leaf_where_list", "list_ok", "list_empty", "list_item_null",
+                                      "list_item_err", "list_item_bad", "list_mixed"],
+            "reference_event": ["null-propagated-to-root", "list-nulled-by-non-null-item", "list-failed-by-iterator-error", "error-nulled-at-list-item", "error-nulled-at-field",
+                                "abstract-type-resolved", "object-not-a-possible-type", "object-of-unknown-type", "leaf-coercion-error", "argument-coercion-field-error",
+                                "schema-introspection-disabled-field-error", "typename-answered-by-executor"],
+            "root": ["null-propagated-to-root"],
+            "operation_kind": ["query", "mutation"],
+            "source": ["exhaustive-palette", "random-world"],
+            "feature": ["skip-include", "named-fragments", "schema-introspection-meta-field"],
+        }},
+        "exhaustive_subspaces": {
+            "quick": ["for every generated request whose operation touches <= 5 distinct (object type, field) cells: all 6^n resolver worlds over a 6-outcome palette per cell (counter exhaustive_enumerations_completed; enumerations cut by the budget are counted separately)"],
+            "thorough": ["for every generated request whose operation touches <= 5 distinct (object type, field) cells: all 6^n resolver worlds over a 6-outcome palette per cell (counter exhaustive_enumerations_completed; enumerations cut by the budget are counted separately)"],
+        },
+        "technique": "runtime monitoring: differential execution against an independent reference executor written from the October 2021 specification, plus direct response invariants and a resolver call log, over generated (schema, operation, variables, resolver world) requests",
+        "level_text": "Exploration: 10^6-10^7 executions of execute_sync are compared with a reference executor over generated valid requests and resolver worlds (exhaustive over a 6-outcome palette for small operations); a universally quantified equality can only be sampled.",
+        "level_note": "The oracle is a reference model written in the harness from the specification text (no GraphQL reference implementation exists offline); it shares no code with apollo-rs. Error messages/locations are not compared. Validity of inputs is decided by apollo's own validation (the property's precondition).",
+        "design_ref": "DESIGN.md section 6, C26",
+    },
+    "C27": {
+        "budget": {"quick": 35, "thorough": 400},
+        "rule": "cases: (request from C26's generator, random resolver world with short lists) x schedule = (pending count k per resolver future / list-stream item in creation order, wake order among parked wakers). "
+                "execute_async is driven by the harness's instrumented single-thread executor (own Waker via std::task::Wake; root future polled only after its waker fired; parked wakers woken one at a time). "
+                "Requests creating <= 6 futures get ALL 3^n vectors k in {0,1,2}; larger ones random vectors with k <= 5; every point where 2..4 wakers are parked at once is expanded depth-first over all wake orders. "
+                "Each run: response == execute_sync's (serialized, key order included), resolver call sequence == sync's, mutation root events non-overlapping in document order, no logical deadlock. "
+                "distinct_nontrivial = distinct (request, world) pairs executed under at least one schedule with a Pending poll (the schedules are counted by schedules_with_pending_polls_executed)",
+        "assumptions": COMMON_ASSUMPTIONS + [
+            "lost wake-ups are decided logically (root Pending, no wake recorded, nothing parked), never by a clock; a 200000-poll step limit is inconclusive, not a verdict",
+            "schedules are those of one thread: resolver futures never complete without being polled; the executor self-check (6 wake orders of 3 parked wakers enumerated, a future parking a no-op waker reported as deadlock) runs at the start of every worker",
+            "requests are those apollo validates and coerces (C26's precondition filter)",
+        ],
+        "floors": {"any": {
+            "exhaustive_futures": ["1", "2", "3", "4", "5", "6"],
+            "schedule_class": ["all-ready", "some-pending"],
+            "operation_kind": ["query", "mutation"],
+            "random_schedules": ["k<=5"],
+            "floor": ["100-distinct-schedules-with-pending-polls-in-one-shard"],
+            "selfcheck": ["all-6-wake-orders-of-3-parked-wakers-enumerated", "lost-wakeup-detected-on-a-future-that-parks-a-noop-waker"],
+        }},
+        "exhaustive_subspaces": {
+            "quick": ["for every (request, world) creating n <= 6 resolver futures / stream items: all 3^n pending-count vectors with k in {0,1,2} (counter requests_with_all_3_pow_n_schedules)",
+                      "for every executed schedule: all wake orders at every point with 2..4 simultaneously parked wakers (depth-first, at most 256 runs per schedule)"],
+            "thorough": ["for every (request, world) creating n <= 6 resolver futures / stream items: all 3^n pending-count vectors with k in {0,1,2} (counter requests_with_all_3_pow_n_schedules)",
+                         "for every executed schedule: all wake orders at every point with 2..4 simultaneously parked wakers (depth-first, at most 256 runs per schedule)"],
+        },
+        "technique": "runtime monitoring: instrumented single-thread executor with controlled readiness schedules, event log at the resolver boundary, logical deadlock detection; exhaustive schedule enumeration within a bound",
+        "level_text": "Exploration: execute_async is run under 10^6-10^7 controlled schedules (all 3^n pending-count vectors for requests with at most 6 futures, random beyond) and compared with execute_sync on response, resolver call order and mutation serialisation; lost wake-ups are detected as logical deadlocks.",
+        "level_note": "The relation async == sync is the property itself, so comparing apollo-rs with itself is the oracle here; what the harness adds independently is the executor, the schedules and the event log. Multi-threaded executors are not modelled.",
+        "design_ref": "DESIGN.md section 6, C27",
+    },
+    "C33": {
+        "budget": {"quick": 35, "thorough": 400},
+        "rule": "cases: (schema from gen_schema with about a third of the output fields rewritten to list depth 2-3, operation generated without @skip/@include, both valid for apollo, every reachable abstract type inhabited) "
+                "x randomness source (harness RandomProvider implementations: seeded PRNG, always-min, always-max, alternating; arbitrary::Unstructured over random bytes and over no bytes) x null ratio {unset, 1/10, 1/2, 1/1} x list bounds {0..0, 0..1, 1..3, 5..5}. "
+                "Each case: ResponseBuilder::build() data is judged by the shape checker (keys = CollectFields response keys in order for some possible concrete type, __typename, non-null, list nesting, enum values, scalar JSON kinds) "
+                "and, when the shape holds, re-executed through apollo execute_sync with resolvers serving exactly that data (must reproduce it without errors). "
+                "distinct_nontrivial = distinct (schema, operation) pairs satisfying the precondition for which build() returned a data object under at least one configuration (every builder run counts in evaluations)",
+        "assumptions": COMMON_ASSUMPTIONS + [
+            "precondition filter: apollo's own validation; every abstract type reachable from the operation has >= 1 possible object type (filter rate = filtered_by_precondition_uninhabited_abstract_type / pairs_generated)",
+            "Float accepts any JSON number in the shape checker; custom scalars accept any JSON; a ResponseError returned by build() is counted, not judged",
+            "re-execution uses apollo's executor as a second witness only when the shape checker accepts; variables for it are total and non-null so that argument coercion adds no errors",
+        ],
+        "floors": {"any": {
+            "source": ["seeded", "min", "max", "alternating", "unstructured", "unstructured-empty"],
+            "null_ratio": ["None", "Some((1, 10))", "Some((1, 2))", "Some((1, 1))"],
+            "list_bounds": ["0..0", "0..1", "1..3", "5..5"],
+            "list_depth_of_checked_field": ["0", "1", "2", "3"],
+            "shape_verdict": ["holds"],
+            "reexecution": ["reproduced"],
+        }},
+        "technique": "runtime monitoring: independent shape checker over the model schema plus re-execution through the real executor, over generated (schema, operation) pairs x randomness sources x builder configurations",
+        "level_text": "Exploration: 10^6-10^7 generated responses are checked against an independent shape checker and re-executed; nested list types to depth 3 are forced by quota.",
+        "level_note": "The shape checker is written from the property's clauses over the harness's own schema model; re-execution trusts apollo-compiler's executor (property C26) as a second witness, never as the only one.",
+        "design_ref": "DESIGN.md section 6, C33",
+    },
 }
 
 # Properties not claimed, with the reason (kept current; see DESIGN.md section 10).
